@@ -91,7 +91,10 @@ struct C05 : Check {
 	static std::string pattern(Rng &r)
 	{
 		static const char *p[] = {"a", "foo", "^", "$", ".", "x*", "\\<b", "r\\>", "[a-f]+", "[^ ]*", "(a|b)+", "(x)(y)?", "a{2,3}", "[[:alpha:]]+", "\\(", "[", "(", "a{", "*", "\\", "", "[]", "[^]", "()", "a||b", "^$", ".*x.*y", "(((((a)))))", "a{1,200}", "[z-a]"};
-		int k = (int) r.below(34);
+		int k = (int) r.below(36);
+		// bounds in every shape, also reversed, missing, huge and unterminated
+		if (k == 34) { static const char *b[] = {"x{9,1}", "(ab){12,2}", "a{,3}", "a{3,}", "a{0}", "a{0,0}b", "a{99999999999}", "a{1,99999999999}", "a{,}", "a{2", "a{2,", "(a|b){7,3}c", ".{200,1}", "[a-z]{30,2}$"}; return b[r.below(14)]; }
+		if (k == 35) return std::string(1, "ax.("[r.below(4)]) + "{" + std::to_string(r.range(0, 40)) + (r.chance(1, 2) ? "," + std::to_string(r.range(0, 40)) : "") + "}";
 		if (k < 30) return p[k];
 		if (k == 30) return utf8_enc(0x4e00 + (unsigned) r.below(50)) + "+";
 		if (k == 31) return "[" + utf8_enc(0x627) + "-" + utf8_enc(0x64a) + "]";
